@@ -1,7 +1,7 @@
 # /verif build: Coq development (full .vo build), extraction, OCaml driver, hygiene.
 SHELL := /bin/bash
 COQTIMEOUT ?= 1500
-.PHONY: setup build coq extract driver hygiene clean
+.PHONY: setup build coq extract driver hygiene clean coqchk
 
 setup: build hygiene
 
@@ -31,6 +31,10 @@ driver: extract ocaml/driver
 hygiene:
 	@if grep -nE '\bAdmitted\b|\badmit\b|^\s*(Axiom|Axioms|Parameter|Parameters|Conjecture|Conjectures)\b|Admit Obligations|Unset Guard|bypass_check|type-in-type|impredicative-set|Unset Universe|Unset Positivity' coq/theories/*.v coq/extract/*.v coq/_CoqProject; then echo "HYGIENE FAILED"; exit 1; else echo "hygiene ok"; fi
 	@if grep -nE '^\s*(Variable|Variables|Hypothesis|Hypotheses|Context)\b' coq/theories/*.v | python3 harness/section_check.py; then echo "sections ok"; else echo "HYGIENE FAILED (Variable/Hypothesis outside a section)"; exit 1; fi
+
+# independent re-check of every compiled file and the axioms they rely on (minutes; not part of a registered check)
+coqchk: coq
+	cd coq && timeout 3600 coqchk -silent -o -Q theories SedV $$(ls theories/Props_*.v | sed 's|theories/|SedV.|; s|\.v$$||') > coqchk.log 2>&1; tail -30 coqchk.log
 
 clean:
 	rm -rf coq/Makefile.coq coq/Makefile.coq.conf coq/_CoqProject coq/build.log coq/.*.aux coq/theories/*.vo* coq/theories/*.glob coq/theories/.*.aux coq/extract/*.vo* coq/extract/*.glob coq/extract/sedmodel.* ocaml/sedmodel.* ocaml/*.cm* ocaml/*.o ocaml/driver
